@@ -10,8 +10,10 @@ def run(tier, replay=None):
     if replay:
         return semcheck.replay_file(ck, replay)
     fams = props.c12_families(tier, vlib.seed(), ck=ck)
+    fams.append(props.float_chains(tier, vlib.seed(), first_id=3700000))
     vs = semcheck.run_families(ck, fams, props.c12_nontrivial)
     semcheck.binding_selftest(ck, vs)
+    semcheck.symbolic_float_selftest(ck, vs)
     # the tree the front end builds for a statement is the tree that was written, in every context (no context-dependent or
     # operand-dependent rewriting before the compiler sees it): resolved trees against CalcScope.tla, on a stable sample
     import scopecheck
